@@ -6,6 +6,7 @@ import (
 	"fmt"
 	"sort"
 	"strings"
+	"time"
 	"unicode"
 
 	frugal "github.com/Workiva/frugal/lib/go"
@@ -37,6 +38,7 @@ const (
 	rwAnnotate = "err-annotate"
 	rwInject   = "err-inject"
 	rwClear    = "err-clear"
+	rwCtx      = "replace-context"
 )
 
 // mwSpec describes one tracing middleware.
@@ -57,6 +59,76 @@ func padTo(s string, n int) string {
 		return s + strings.Repeat("m", n-len(s))
 	}
 	return s
+}
+
+// ---- the FContext a middleware passes on ----------------------------------------
+
+// ctxModel is what the oracle tracks of the FContext travelling with a call:
+// its timeout and the request headers context-replacing middleware added.
+type ctxModel struct {
+	TO time.Duration
+	H  []string
+}
+
+func (m ctxModel) String() string {
+	return fmt.Sprintf("timeout=%dms headers=%v", m.TO/time.Millisecond, m.H)
+}
+
+// apply is what a context-replacing middleware does to the context.
+func (m *ctxModel) apply(mw *mwSpec) {
+	if mw.RW != rwCtx {
+		return
+	}
+	m.TO = ctxTimeout(mw)
+	m.H = append(append([]string(nil), m.H...), "x-mw-"+mw.ID+"="+mw.ID)
+	sort.Strings(m.H)
+}
+
+func ctxTimeout(mw *mwSpec) time.Duration { return time.Duration(30+mw.K) * time.Second }
+
+// replacement builds the context a context-replacing middleware passes on: a
+// clone of the one it received with a DIFFERENT timeout and one more header.
+func replacement(mw *mwSpec, old frugal.FContext) frugal.FContext {
+	repl := frugal.Clone(old)
+	repl.SetTimeout(ctxTimeout(mw))
+	repl.AddRequestHeader("x-mw-"+mw.ID, mw.ID)
+	return repl
+}
+
+// ctxDescOf renders the same features of a real context (or of what a handler
+// recorded of it).
+func ctxDescOf(timeout time.Duration, hdrs map[string]string) string {
+	m := ctxModel{TO: timeout}
+	for k, v := range hdrs {
+		if strings.HasPrefix(k, "x-mw-") {
+			m.H = append(m.H, k+"="+v)
+		}
+	}
+	sort.Strings(m.H)
+	return m.String()
+}
+
+func ctxDesc(c frugal.FContext) string {
+	if c == nil {
+		return "nil"
+	}
+	return ctxDescOf(c.Timeout(), c.RequestHeaders())
+}
+
+// withCtx appends the context description to rendered values.
+func withCtx(vals, desc string) string { return vals + " ctx{" + desc + "}" }
+
+// passOn returns the arguments middleware mw hands to the next handler.
+func passOn(mw *mwSpec, method string, args frugal.Arguments) frugal.Arguments {
+	switch {
+	case mw.RW == rwArg && len(args) > 0:
+		return append(frugal.Arguments{args[0]}, rwArgs(mw, method, []interface{}(args[1:]))...)
+	case mw.RW == rwCtx && len(args) > 0:
+		pass := append(frugal.Arguments(nil), args...)
+		pass.SetContext(replacement(mw, args.Context()))
+		return pass
+	}
+	return args
 }
 
 // mwErr is an error type of the monitor's own (client-side injections).
@@ -281,7 +353,7 @@ func resErr(res []interface{}) error {
 
 // rwRes returns the results middleware mw hands back.
 func rwRes(mw *mwSpec, method string, in []interface{}) []interface{} {
-	if mw.RW == rwObserve || mw.RW == rwArg {
+	if mw.RW == rwObserve || mw.RW == rwArg || mw.RW == rwCtx {
 		return in
 	}
 	out := append([]interface{}(nil), in...)
